@@ -1142,7 +1142,7 @@ class C18(ServerProp):
     pid = 'C18'
     rule = ('C08/C09/C10 histories with the kill switch registered, signalled at a random point (idle, partial requests, unsent '
             'output, unanswered requests, at capacity with a client waiting), followed by repeated polling; each history is '
-            'also run without a kill switch and the two runs are compared up to the signal; kill at capacity with every descriptor ready; kill with a large response half written; non-trivial = kill signalled '
+            'also run without a kill switch and the two runs are compared up to the signal; kill at capacity with every descriptor ready; kill with a large response half written; kill after the application answered one request twice (the surplus answer is refused with Underflow); non-trivial = kill signalled '
             'with at least one connection open')
 
     def cases(self, rng, tier):
@@ -1185,6 +1185,28 @@ class C18(ServerProp):
             hk.ops = h.ops + [[9], [6], [6], [11, 3], [5, a0], [6], [6]]
             hk.sent = {}
             out.append(self.mk(hk, 1, {'kind': 'kill-with-large-response-half-written', 'pair': pair, 'at': at, 'role': 'kill',
+                                       'oracle_only': True}))
+        # an application that answers one request TWICE (op 14 answers and keeps the request outstanding; the second answer is
+        # refused with Underflow), on an idle connection whose client stays connected, then the signal: the refused answer
+        # must not leave the server unable to report the shutdown (outside the executable model: oracle only)
+        for _ in range(6 if tier == 'quick' else 100):
+            pair += 1
+            h = Hist(rng)
+            a0 = h.connect()
+            h.ops.append([11, 4])
+            h.request(a0, pipelined=1, poll_between=False)
+            h.ops.append([11, 8])
+            h.ops.append([14, 0])
+            h.ops.append([11, 6])
+            if rng.random() < 0.6:
+                h.ops.append([5, a0])
+            for _ in range(rng.choice([1, 1, 2])):
+                h.ops.append([rng.choice([12, 14]), 0])
+            at = len(h.ops)
+            hk = Hist(rng)
+            hk.ops = h.ops + [[9], [6], [6], [11, 3], [5, a0], [6], [6]]
+            hk.sent = {}
+            out.append(self.mk(hk, 1, {'kind': 'kill-after-surplus-answer', 'pair': pair, 'at': at, 'role': 'kill',
                                        'oracle_only': True}))
         for _ in range(450 if tier == 'quick' else 15000):
             r = rng.random()
